@@ -183,6 +183,8 @@ func runC10(r *Run) {
 			return cacheplugin.VerifGetMsgKey(q)
 		}
 		steps := 8 + r.Rng.Intn(30)
+		execKeys := 0
+		var execStoreKeys []int
 		for st := 0; st < steps; st++ {
 			switch x := r.Rng.Intn(10); {
 			case x < 2 || len(handles) == 0:
@@ -212,8 +214,55 @@ func runC10(r *Run) {
 				}
 				ops = append(ops, fmt.Sprintf("s:%d:%d", k, ci))
 				outs = append(outs, "-")
+			case x == 4 && st%3 == 0: // a miss goes through Cache.Exec: the plugins behind the cache answer, the cache stores, and whoever
+				// runs after Exec returned (plugins in front of the cache, the server) rewrites the response it now owns
+				execKeys++
+				k := 2 + execKeys // never stored before: certainly a miss
+				m := mkResp(keyName(k), hi*100+st)
+				if len(m.Answer) == 0 {
+					continue
+				}
+				handles = append(handles, m)
+				ci := len(handles) - 1
+				ops = append(ops, "p:"+join10(elems10(m)))
+				outs = append(outs, "-")
+				want := elems10(m)
+				node := &sequence.ChainNode{E: sequence.ExecutableFunc(func(ctx context.Context, qCtx *query_context.Context) error {
+					qCtx.SetResponse(m)
+					return nil
+				})}
+				q := new(dns.Msg)
+				q.SetQuestion(keyName(k), dns.TypeA)
+				qCtx := query_context.NewContext(q)
+				if err := c.Exec(context.Background(), qCtx, sequence.NewChainWalker([]*sequence.ChainNode{node}, nil)); err != nil {
+					fatal(err)
+				}
+				ops = append(ops, fmt.Sprintf("s:%d:%d", k, ci))
+				outs = append(outs, "-")
+				stored[k] = want
+				storedMaxTTL[k] = 0
+				for _, sec := range [][]dns.RR{m.Answer, m.Ns, m.Extra} {
+					for _, rr := range sec {
+						if rr.Header().Ttl > storedMaxTTL[k] {
+							storedMaxTTL[k] = rr.Header().Ttl
+						}
+					}
+				}
+				// Exec has returned: the response belongs to the caller again
+				for i := range want {
+					if v, ok := mutate(m, i, hi*1000+st*7+i); ok {
+						ops = append(ops, fmt.Sprintf("m:%d:%d:%d", ci, i, v))
+						outs = append(outs, "-")
+					}
+				}
+				time.Sleep(300 * time.Microsecond)
+				execStoreKeys = append(execStoreKeys, k)
+				r.Count("stores-through-Exec-on-a-miss")
 			case x < 7: // a query is answered from the cache
 				k := r.Rng.Intn(3)
+				if len(execStoreKeys) > 0 && r.Rng.Intn(2) == 0 {
+					k = execStoreKeys[r.Rng.Intn(len(execStoreKeys))]
+				}
 				if stored[k] == nil {
 					continue
 				}
